@@ -308,3 +308,75 @@ def executable_lines():
                 stack.extend(k for k in c.co_consts if hasattr(k, "co_lines"))
             out[path[len(_PVDIR):]] = lines
     return out
+
+
+# ---- H-yield: line-level yield injection in pool threads (thread mode), seeded ------------------------------------------
+_YIELD = {"on": False, "n": 0, "rng": None, "p": 0.0, "codes": []}
+
+
+def yield_start(seed, p=0.25):
+    """LINE events on the code objects that pooled work runs through (_init_agent and overrides, _greedy_select_agent and
+    overrides, _fcn, Task.initial_solution / correct_solution / solve / empty_solution): in any thread other than the main
+    one, yield the GIL (sleep(0) or sleep(1e-4)) with seeded probability p.  Placed between the library's own statements,
+    i.e. exactly where a preemptive thread switch can happen anyway."""
+    import random
+    import sys
+    import threading
+    import time
+    from pyvolutionary.models import Task
+    if _YIELD["on"] or not hasattr(sys, "monitoring"):
+        return False
+    mon = sys.monitoring
+    tool = mon.PROFILER_ID
+    try:
+        mon.use_tool_id(tool, "pvmon-yield")
+    except ValueError:
+        return False
+    rng = random.Random(f"yield/{seed}")
+    main = threading.main_thread()
+    st = _YIELD
+    st.update(on=True, n=0, rng=rng, p=p)
+    lock = threading.Lock()
+
+    def on_line(code, line):
+        if threading.current_thread() is main:
+            return None
+        with lock:
+            r = rng.random()
+        if r < p:
+            st["n"] += 1
+            time.sleep(0 if r < p * 0.7 else 1e-4)
+        return None
+
+    mon.register_callback(tool, mon.events.LINE, on_line)
+    codes = set()
+    names = ("_init_agent", "_greedy_select_agent", "_fcn")
+    for cls in [OptimizationAbstract] + list(env.optimizer_classes().values()):
+        for n in names:
+            f = cls.__dict__.get(n)
+            f = getattr(f, "__wrapped__", f)
+            if f is not None and hasattr(f, "__code__"):
+                codes.add(f.__code__)
+    for n in ("initial_solution", "correct_solution", "solve", "empty_solution"):
+        codes.add(getattr(Task, n).__code__)
+    for c in codes:
+        mon.set_local_events(tool, c, mon.events.LINE)
+    st["codes"] = list(codes)
+    return True
+
+
+def yield_stop():
+    import sys
+    if not _YIELD["on"]:
+        return 0
+    mon = sys.monitoring
+    tool = mon.PROFILER_ID
+    for c in _YIELD["codes"]:
+        try:
+            mon.set_local_events(tool, c, 0)
+        except Exception:
+            pass
+    mon.register_callback(tool, mon.events.LINE, None)
+    mon.free_tool_id(tool)
+    _YIELD["on"] = False
+    return _YIELD["n"]
